@@ -22,7 +22,8 @@
     `T16_rk4_global`, `T16_rk45_global`, `T16_rk4_global_growth`, `T16_rk4_global_order`,
     `T16_rk45_global_order`; normalisation as `StateEvolution` applies it:
     `T16_rk_normalisation_callbacks`, `T16_rk4_evolution_error`, `T16_rk45_evolution_error`,
-    `T16_rk_no_zero_division`;
+    `T16_rk_no_zero_division`; on plain vectors with `Matrix.mulVec`:
+    `T16_trotter_evolution_error_matrix`, `T16_rk4_steps_error_matrix`, `T16_rk45_steps_error_matrix`;
   * time-dependent `H`: `T16_timed_execute`, `T16_timed_execute_normalising`, `T16_timed_reads`,
     `T16_timed_exp_evolution`, `T16_timed_trotter_evolution`, `T16_timed_trotter_vs_frozen`,
     `T16_timed_constant`.  What is reached is the ordered product of the frozen-step operators;
@@ -329,6 +330,61 @@ theorem T16_trotter_evolution_error (hs : List (V →L[ℂ] V)) (hh : ∀ h ∈ 
     (mul_le_mul_of_nonneg_right (trotter_global hs hh dt k) (norm_nonneg ψ))
 
 end hilbert
+
+/-! ### states as plain vectors `n → ℂ` with `Matrix.mulVec` (the model of part 2) -/
+
+section vectors
+variable {n : Type} [Fintype n] [DecidableEq n]
+open scoped Matrix.Norms.L2Operator
+
+/-- Euclidean norm of a state vector. -/
+noncomputable def vnorm (v : n → ℂ) : ℝ := ‖(WithLp.toLp 2 v : EuclideanSpace ℂ n)‖
+
+/-- the spectral norm is the operator norm for the Euclidean norm of vectors. -/
+theorem vnorm_mulVec_le (A : Matrix n n ℂ) (v : n → ℂ) : vnorm (A.mulVec v) ≤ ‖A‖ * vnorm v := by
+  have := Matrix.l2_opNorm_mulVec A (WithLp.toLp 2 v : EuclideanSpace ℂ n)
+  simpa [vnorm] using this
+
+theorem iterate_mulVec' (A : Matrix n n ℂ) (k : ℕ) (ψ : n → ℂ) :
+    (fun v => A.mulVec v)^[k] ψ = (A ^ k).mulVec ψ := by
+  induction k generalizing ψ with
+  | zero => simp
+  | succ k ih => rw [Function.iterate_succ_apply, ih, Matrix.mulVec_mulVec, ← pow_succ]
+
+/-- **The Trotter solver through `execute` (the very expression of `T16_trotter_evolution`, now
+for NON-commuting Hermitian groups)**: the returned state is within `k · 2 r₃(|dt| L) · ‖ψ‖₂` of
+`exp(-i k dt H) ψ`, with or without callbacks. -/
+theorem T16_trotter_evolution_error_matrix (hs : List (Matrix n n ℂ))
+    (hh : ∀ h ∈ hs, h.IsHermitian) (dt : ℝ) (cb : Bool) (k : ℕ) (ψ : n → ℂ) :
+    vnorm ((execute (fun v => (mtrotter ((dt : ℂ) / 2) hs).mulVec v) id cb k ψ).1
+        - (mprop ((k : ℂ) * (dt : ℂ)) hs.sum).mulVec ψ)
+      ≤ k * (2 * rem3 (|dt| * (hs.map fun h => ‖h‖).sum)) * vnorm ψ := by
+  rw [execute_id_fst, iterate_mulVec', ← Matrix.sub_mulVec]
+  exact (vnorm_mulVec_le _ _).trans
+    (mul_le_mul_of_nonneg_right (T16_trotter_global hs hh dt k) (norm_nonneg _))
+
+/-- **`k` un-normalised RK4 steps on a vector** (what `k` calls of the real solver object do):
+within `((1 + r₅(|dt|‖H‖))^k - 1) ‖ψ‖₂` of `exp(-i k dt H) ψ`. -/
+theorem T16_rk4_steps_error_matrix (H : Matrix n n ℂ) (hH : H.IsHermitian) (dt : ℝ) (k : ℕ)
+    (ψ : n → ℂ) :
+    vnorm ((fun v => (rk4Op ((-(Complex.I * (dt : ℂ))) • H)).mulVec v)^[k] ψ
+        - (mprop ((k : ℂ) * (dt : ℂ)) H).mulVec ψ)
+      ≤ ((1 + expRem 5 (|dt| * ‖H‖)) ^ k - 1) * vnorm ψ := by
+  rw [iterate_mulVec', ← Matrix.sub_mulVec]
+  exact (vnorm_mulVec_le _ _).trans
+    (mul_le_mul_of_nonneg_right (T16_rk4_global H hH dt k) (norm_nonneg _))
+
+/-- the same for RK45. -/
+theorem T16_rk45_steps_error_matrix (H : Matrix n n ℂ) (hH : H.IsHermitian) (dt : ℝ) (k : ℕ)
+    (ψ : n → ℂ) :
+    vnorm ((fun v => (rk45Op ((-(Complex.I * (dt : ℂ))) • H)).mulVec v)^[k] ψ
+        - (mprop ((k : ℂ) * (dt : ℂ)) H).mulVec ψ)
+      ≤ ((1 + rk45Loc (|dt| * ‖H‖)) ^ k - 1) * vnorm ψ := by
+  rw [iterate_mulVec', ← Matrix.sub_mulVec]
+  exact (vnorm_mulVec_le _ _).trans
+    (mul_le_mul_of_nonneg_right (T16_rk45_global H hH dt k) (norm_nonneg _))
+
+end vectors
 
 /-! ### time-dependent Hamiltonians: what `execute` reaches -/
 
